@@ -19,6 +19,8 @@ import RoaringModel.SafeMulti
 import RoaringModel.Lemmas.SafeMultiLemmas
 import RoaringModel.SafeTreemapIter
 import RoaringModel.Lemmas.SafeTreemapIterLemmas
+import RoaringModel.SafeBinOps
+import RoaringModel.Lemmas.SafeBinOpsLemmas
 /-!
 # C16 — public operations are total: only the documented panics (property theorems)
 
@@ -1217,5 +1219,49 @@ example : Safe_tryMultiXorOwned
 example : ¬ Safe_tryMultiXorRef
     ([.ok [⟨0, .bitmap { len := 0, bits := List.replicate 1024 wMax }⟩], .ok [⟨0, .array [7]⟩]] : List (Except Nat Bitmap)) := by
   decide +kernel
+
+/-! ## By-reference `&=` / `-=` and the multi-operand folds over them (`SafeBinOps.lean`) -/
+
+/-- **`a &= &b`, `a -= &b` at store level** (store/mod.rs:373-401, :417-434) for ANY two structurally valid stores (no
+    kind / cardinality assumption): `op_bitmaps`' `len +=`, the `bits[key]` / `1 << bit` of every `contains` inside the two
+    `retain` closures, and the `SubAssign<&ArrayStore>` loop. -/
+theorem C16_safe_store_and_sub (s t : Store) (hs : s.Inv) (ht : t.Inv) :
+    s.Safe_andAssignRef t ∧ s.Safe_subAssignRef t :=
+  ⟨Store.safe_andAssignRef s t hs ht, Store.safe_subAssignRef s t hs ht⟩
+example : (Store.bitmap BStore.full).Safe_andAssignRef (.array [1, 2, 65535]) ∧
+    (Store.bitmap BStore.full).Safe_subAssignRef (.array [1, 2, 65535]) :=
+  C16_safe_store_and_sub _ _ BStore.inv_full ⟨by decide, by decide⟩
+/-- teeth: a value that does not fit `u16` indexes past the 1024 words -/
+example : ¬ (Store.array [70000]).Safe_andAssignRef (.bitmap BStore.full) := by decide +kernel
+/-- teeth: a bitset store whose cached length is too small underflows in `len -=` -/
+example : ¬ (Store.bitmap { len := 0, bits := List.replicate 1024 wMax }).Safe_subAssignRef (.array [7]) := by decide +kernel
+
+/-- **`RoaringBitmap &= &RoaringBitmap`** (ops.rs:259-273) **and `RoaringBitmap -= &RoaringBitmap`** (ops.rs:336-349; `a -= b`,
+    `a - b`, `a - &b` forward to it) as a whole: at every call of the `retain_mut` closure the `binary_search_by_key` result
+    indexes `rhs.containers`, the container-level operation (container.rs:236-241 / :254-259) runs its store-level op and
+    `ensure_correct_store` on what that op left. -/
+theorem C16_safe_bitmap_and_sub_assign (a b : Bitmap) (ha : a.WF) (hb : b.WF) :
+    Bitmap.Safe_andAR a b ∧ Bitmap.Safe_subAR a b :=
+  ⟨Bitmap.safe_andAR a b ha.storesInv hb.storesInv, Bitmap.safe_subAR a b ha.storesInv hb.storesInv⟩
+example : Bitmap.Safe_andAR exB exB ∧ Bitmap.Safe_subAR exB exB := C16_safe_bitmap_and_sub_assign exB exB exB_wf exB_wf
+example : Bitmap.Safe_subAR exB [⟨0, .array [2]⟩, ⟨2, .array [9]⟩] := by decide +kernel
+example : ¬ Bitmap.Safe_subAR [⟨0, .bitmap { len := 0, bits := List.replicate 1024 wMax }⟩] [⟨0, .array [7]⟩] := by
+  decide +kernel
+
+/-- **`MultiOps::difference`** — `try_multi_sub_owned` / `try_multi_sub_ref` (multiops.rs:169-205) **and
+    `MultiOps::intersection` by reference** — `try_multi_and_ref` (multiops.rs:144-166) as a whole: the predicate of the `-=` /
+    `&=` at EVERY iteration, on the accumulator the iterations before left, for `Result` items (an `Err` ends the function),
+    every size hint and every permutation the unstable sort may produce.  The loop invariant is only `Store.Inv` of every
+    store, so the statement does not depend on the accumulator staying canonical. -/
+theorem C16_safe_multiops_difference_intersection {ε : Type} (sort : List Bitmap → List Bitmap) (hs : ∀ l, (sort l).Perm l)
+    (h : Hint) (xs : List (Except ε Bitmap)) (hwf : ∀ b ∈ okValues xs, Bitmap.WF b) :
+    Safe_tryMultiSub xs ∧ Safe_tryMultiAndRefWith sort h xs :=
+  ⟨safe_tryMultiSub xs (fun r hr => (hwf r (mem_okValues hr)).storesInv),
+   safe_tryMultiAndRefWith hs h xs (fun b hb => (hwf b hb).storesInv)⟩
+example : Safe_tryMultiSub exOps ∧ Safe_tryMultiAndRefWith sortDesc .exact exOps :=
+  C16_safe_multiops_difference_intersection sortDesc sortDesc_isSortDesc.perm .exact exOps exOps_wf
+/-- teeth: an ill-formed second operand met by the fold -/
+example : ¬ Safe_tryMultiSub
+    ([.ok [⟨0, .bitmap BStore.full⟩], .ok [⟨0, .array [70000]⟩]] : List (Except Nat Bitmap)) := by decide +kernel
 
 end Roaring.C16
